@@ -174,17 +174,25 @@ class FileLock:
                 except (IOError, OSError):
                     pass
             else:
-                if FCNTL_AVAILABLE:
-                    fcntl.flock(self._lock_fd, fcntl.LOCK_UN)
-                elif MSVCRT_AVAILABLE:
-                    msvcrt.locking(self._lock_fd, msvcrt.LK_UNLCK, 1)  # type: ignore[attr-defined]
-                os.close(self._lock_fd)
+                try:
+                    if FCNTL_AVAILABLE:
+                        fcntl.flock(self._lock_fd, fcntl.LOCK_UN)
+                    elif MSVCRT_AVAILABLE:
+                        msvcrt.locking(self._lock_fd, msvcrt.LK_UNLCK, 1)  # type: ignore[attr-defined]
+                finally:
+                    # Closing the descriptor drops the kernel lock even when the
+                    # explicit unlock failed; leaving it open would keep the lock
+                    # held (and every later acquire timing out) for the life of
+                    # the process.
+                    os.close(self._lock_fd)
 
             self._lock_fd = None
             self._locked = False
         except Exception:
-            # Best effort cleanup
-            pass
+            # Best effort cleanup: the descriptor is closed or unusable either
+            # way, so never keep reporting the lock as held.
+            self._lock_fd = None
+            self._locked = False
 
     def __enter__(self) -> "FileLock":
         """Context manager entry."""
